@@ -552,6 +552,32 @@ class Builtins(object):
                 return Builtin('dict.get', dget)
             if name in ('items', 'keys', 'values'):
                 return Builtin('dict.' + name, lambda it2, a, k, _d=base: [tuple(x) if name == 'items' else x for x in getattr(_d, name)()])
+            if name in ('update', 'copy', 'clear', 'pop', 'setdefault'):
+                def dmut(it2, a, k, _d=base, _n=name):
+                    # concrete keys only (the keys of a symbolic mapping live in SymMapView, not here)
+                    if _n == 'copy' and not a:
+                        return dict(_d)
+                    if _n == 'clear' and not a:
+                        self.world.note_write(it2, _d, _n)
+                        _d.clear()
+                        return None
+                    if _n == 'update' and len(a) <= 1 and all(isinstance(x, str) for x in k):
+                        other = a[0] if a else {}
+                        if isinstance(other, dict) and all(not isinstance(x, Sym) for x in other):
+                            self.world.note_write(it2, _d, _n)
+                            _d.update(other)
+                            _d.update(k)
+                            return None
+                    if _n in ('pop', 'setdefault') and a and not isinstance(a[0], Sym):
+                        self.world.note_write(it2, _d, _n)
+                        try:
+                            return getattr(_d, _n)(*a)
+                        except KeyError:
+                            raise PyRaise('KeyError', ExcInst('KeyError'))
+                        except TypeError:
+                            raise PyRaise('TypeError', ExcInst('TypeError'))
+                    raise OutOfReach('dict.%s with these arguments' % _n)
+                return Builtin('dict.' + name, dmut)
             raise OutOfReach('dict.%s' % name)
         if isinstance(base, list) and name in ('append', 'extend', 'insert', 'pop', 'sort', 'reverse', 'remove', 'clear'):
             def mut(it2, a, k, _l=base, _n=name):
